@@ -255,10 +255,21 @@ func (f *witness) modelFields(c wcall) []string {
 	} else if o.panicked {
 		post = "panic"
 	}
+	if c.seq {
+		// for the two calls of a `seq`: <does the first body succeed once authorised>/<do both>
+		first := "fail"
+		code1 := relayCode([]common.Address{addrA}, c.spec.contract, c.spec.method, c.spec.args(c.owner, c.variant))
+		if o := f.w.invokeCodeTx(f.allWitnesses(c.owner), common.ADDRESS_EMPTY, code1, false); o.ok {
+			first = "ok"
+		} else if o.panicked {
+			first = "panic"
+		}
+		post = first + "/" + post
+	}
 	// does the call get as far as its witness guard? (some handlers validate stored configuration first): without any
 	// signer and without calling contract no guard passes, so anything but a witness rejection happened before it
 	pre := "ok"
-	if post != "ok" {
+	if post != "ok" && post != "ok/ok" {
 		if o := f.w.invoke(nil, nil, c.spec.contract, c.spec.method, c.spec.args(c.owner, c.variant), false); o.class() != "reject:witness" && !(c.seq && o.ok) {
 			pre = "fail"
 		}
@@ -440,7 +451,9 @@ func (f *witness) Gen(r *hx.Run) {
 		// two calls in one transaction: directly by contract A, then through A -> B (a witness obtained in the first frame
 		// must not carry over)
 		for _, so := range [][2]string{{"-", "A"}, {"-", "own"}, {"own", "own"}, {"-", "B"}, {"op", "A"}} {
-			doP("seq", id, 0, "-", so[0], so[1], "-")
+			if f.specs[id].want != "operatorOrDue" {
+				doP("seq", id, 0, "-", so[0], so[1], "-")
+			}
 		}
 	}
 	// the operator address for 4..9 consensus validators: the m-of-n multi-signature address (m = n - (n-1)/3, computed here
@@ -504,7 +517,9 @@ func (f *witness) Gen(r *hx.Run) {
 			if r.Rng.Chance(1, 6) {
 				payer = []string{"own", "op", "oth", "v1"}[r.Rng.Intn(4)]
 			}
-			if r.Rng.Chance(1, 10) {
+			if r.Rng.Chance(1, 10) && f.specs[id].want != "operatorOrDue" {
+				// (not for CommitDpos: its first call changes the view height, so `due` differs between the two calls of
+				// one transaction, which a per-line `due` field cannot express)
 				kind, via = "seq", "-"
 			}
 			doP(kind, id, r.Rng.Intn(3), via, signers, owner, payer)
